@@ -70,8 +70,12 @@ let c19info line =
 (* ------------------------------------------------------------------ c19conn *)
 (* model world: slot k has port 50000+k; ip ids: 1 = 127.0.0.1, 2 = ::1, 3 = 255.255.255.255 *)
 let slot_ip kind = match kind with
-  | "L4" | "R4" -> 1 | "L6" | "R6" -> 2 | "U4" -> 3 | _ -> failwith "bad slot kind"
-let slot_port k = 50000 + k
+  | "L4" | "R4" | "Z4" -> 1 | "L6" | "R6" -> 2 | "U4" -> 3 | _ -> failwith "bad slot kind"
+let cur_kinds : string array ref = ref [||]
+let slot_port k = if (!cur_kinds).(k) = "Z4" then 0 else 50000 + k
+let nslots () = Array.length !cur_kinds
+let slot_with_port p =
+  let rec go k = if k >= nslots () then None else if slot_port k = p then Some k else go (k + 1) in go 0
 let subst_ports text =
   let b = Buffer.create 16 in
   let n = String.length text in
@@ -81,7 +85,7 @@ let subst_ports text =
     else (Buffer.add_char b text.[!i]; incr i)
   done;
   Buffer.contents b
-let show_port p = let p = int_of_z p in if p >= 50000 && p < 50010 then Printf.sprintf "@%d" (p - 50000) else string_of_int p
+let show_port p = let p = int_of_z p in match slot_with_port p with Some k -> Printf.sprintf "@%d" k | None -> string_of_int p
 
 let outcomes : string array ref = ref [||]     (* error texts of the dial oracle, DFail i indexes here *)
 let intern s =
@@ -96,11 +100,12 @@ let c19conn line =
   let host_t = field_d line "host" "" and ctor = field_d line "ctor" "n" and ops = field_d line "ops" ""
   and res = field_d line "res" "err" and svc = field_d line "svc" "c" in
   let kinds = Array.of_list (split ',' (field_d line "slots" "")) in
+  cur_kinds := kinds;
   let oracle = split ',' (field_d line "oracle" "") in
   let slot_addr k = (z_of_int (slot_ip kinds.(k)), z_of_int (slot_port k)) in
   let slot_of (ip, p) =
-    let p = int_of_z p - 50000 in
-    if p >= 0 && p < Array.length kinds && slot_ip kinds.(p) = int_of_z ip then Some p else None in
+    let rec go k = if k >= nslots () then None
+      else if slot_port k = int_of_z p && slot_ip kinds.(k) = int_of_z ip then Some k else go (k + 1) in go 0 in
   let show_addr a = match slot_of a with Some k -> string_of_int k | None -> "x" in
   let otab = List.filter_map (fun e -> match String.index_opt e '=' with
       | Some i -> Some (String.sub e 0 i, String.sub e (i+1) (String.length e - i - 1))
@@ -166,7 +171,7 @@ let c19conn line =
             | _ -> false) evs) in
         Some (Printf.sprintf "%d:%d" k n) end
       else None) (List.init (Array.length kinds) (fun i -> i)) in
-  Printf.sprintf "log=%s|acc=%s|res=%s" (String.concat "," logs) (String.concat "," acc) result
+  Printf.sprintf "log=%s|acc=%s|res=%s" (if res = "d" then "~" else String.concat "," logs) (String.concat "," acc) result
 
 (* ------------------------------------------------------------------- c19tls *)
 let c19tls line =
@@ -185,8 +190,7 @@ let c19tls line =
   let show = function
     | TOk _ -> "OK req=1 echo=1"
     | TErrInvalidInput -> "ERR InvalidInput"
-    | TErrHandshake -> "ERR hs"
-    | TPanic -> "PANIC" in
+    | TErrHandshake -> "ERR hs" in
   let r =
     if io = "mem" then show (snd (tls_connect name_ok handshake_ok be host (z_of_int 0)))
     else begin
